@@ -110,6 +110,14 @@ var c06lowOrder = [][]byte{
 	c06hex("d9ffffffffffffffffffffffffffffffffffffffffffffffffffffffffffffff"),
 	c06hex("daffffffffffffffffffffffffffffffffffffffffffffffffffffffffffffff"),
 	c06hex("dbffffffffffffffffffffffffffffffffffffffffffffffffffffffffffffff"),
+	// the seven canonical encodings with the (ignored) top bit set
+	c06hex("0000000000000000000000000000000000000000000000000000000000000080"),
+	c06hex("0100000000000000000000000000000000000000000000000000000000000080"),
+	c06hex("e0eb7a7c3b41b8ae1656e3faf19fc46ada098deb9c32b1fd866205165f49b880"),
+	c06hex("5f9c95bca3508c24b1d0b1559c83ef5b04445cc4581c8e86d8224eddd09f11d7"),
+	c06hex("ecffffffffffffffffffffffffffffffffffffffffffffffffffffffffffffff"),
+	c06hex("edffffffffffffffffffffffffffffffffffffffffffffffffffffffffffffff"),
+	c06hex("eeffffffffffffffffffffffffffffffffffffffffffffffffffffffffffffff"),
 }
 
 func c06hex(s string) []byte {
@@ -121,6 +129,9 @@ func c06hex(s string) []byte {
 }
 
 type c06run struct {
+	claimedReq  map[*c06inst]*c06inst // requester instance -> the responder instance that accepted it
+	claimedResp map[*c06inst]*c06inst // responder instance -> the requester instance that succeeded against it
+	sessions    [][2]*c06inst         // completed honest relays (requester, responder)
 	r        *kernel.Run
 	honest   []*c06party
 	adv      *c06party
@@ -243,8 +254,11 @@ func (c *c06run) judge(where string) {
 					// responder received frames 0 (hello) and 1 (authenticate) from q, q received the responder's hello
 					m := eqFrames(q.sent, i.received, 2) && eqFrames(i.sent, q.received, 1)
 					q.mu.Unlock()
-					if m {
+					// one requester session proves possession to ONE responder session ("in this very session")
+					if m && (c.claimedReq[q] == nil || c.claimedReq[q] == i) {
+						c.claimedReq[q] = i
 						ok = true
+						break
 					}
 				}
 			}
@@ -273,8 +287,10 @@ func (c *c06run) judge(where string) {
 					q.mu.Lock()
 					m := eqFrames(i.sent, q.received, 2) && eqFrames(q.sent, i.received, 2)
 					q.mu.Unlock()
-					if m {
+					if m && (c.claimedResp[q] == nil || c.claimedResp[q] == i) {
+						c.claimedResp[q] = i
 						ok = true
+						break
 					}
 				}
 			}
@@ -289,7 +305,7 @@ func (c *c06run) judge(where string) {
 
 func c06session(r *kernel.Run, seed uint64) {
 	kernel.SeedCrypto(seed)
-	c := &c06run{r: r}
+	c := &c06run{r: r, claimedReq: map[*c06inst]*c06inst{}, claimedResp: map[*c06inst]*c06inst{}}
 	nh := 2 + r.Choose(3)
 	for i := 0; i < nh; i++ {
 		c.honest = append(c.honest, c06newParty(fmt.Sprintf("H%d", i)))
@@ -304,7 +320,7 @@ func c06session(r *kernel.Run, seed uint64) {
 		synctest.Wait()
 	}()
 	for s := 0; s < nsess && !r.Failed(); s++ {
-		kind := r.Choose(9)
+		kind := r.Choose(10)
 		a := c.honest[r.Choose(nh)]
 		b := c.honest[r.Choose(nh)]
 		for b == a {
@@ -321,8 +337,10 @@ func c06session(r *kernel.Run, seed uint64) {
 			c.lowOrderRelay(s, a, b)
 		case 7:
 			c.wrongTargetOrForeign(s, a, b)
-		default:
+		case 8:
 			c.replayInjection(s, a, b)
+		default:
+			c.fullSessionReplay(s, a, b)
 		}
 		c.judge(fmt.Sprintf("session %d", s))
 	}
@@ -441,7 +459,55 @@ func (c *c06run) relay(s int, a, b *c06party, kind int) {
 			return
 		}
 		r.Probe("honest_handshake_completed")
+		c.sessions = append(c.sessions, [2]*c06inst{req, resp})
 	}
+}
+
+// fullSessionReplay: an eavesdropper who holds no key replays, frame by frame, everything one side of an
+// earlier honest session said to a FRESH instance of the other side (same account), right away.
+func (c *c06run) fullSessionReplay(s int, a, b *c06party) {
+	r := c.r
+	if len(c.sessions) == 0 {
+		c.relay(s, a, b, 0)
+		if len(c.sessions) == 0 {
+			return
+		}
+	}
+	old := c.sessions[r.Choose(len(c.sessions))]
+	toResponder := r.Choose(2) == 0
+	r.Fault("full_session_replay")
+	if toResponder {
+		resp := c.start("responder", old[1].owner, nil)
+		r.Logf("session %d: every frame %s sent in an earlier session replayed to a fresh responder of %s", s, old[0].owner.name, old[1].owner.name)
+		old[0].mu.Lock()
+		frames := append([][]byte(nil), old[0].sent...)
+		old[0].mu.Unlock()
+		for _, f := range frames {
+			synctest.Wait()
+			resp.take()
+			if !resp.closed {
+				resp.in <- f
+			}
+		}
+		synctest.Wait()
+		resp.closeIn()
+	} else {
+		req := c.start("requester", old[0].owner, old[1].owner.pk)
+		r.Logf("session %d: every frame %s sent in an earlier session replayed to a fresh requester of %s", s, old[1].owner.name, old[0].owner.name)
+		old[1].mu.Lock()
+		frames := append([][]byte(nil), old[1].sent...)
+		old[1].mu.Unlock()
+		for _, f := range frames {
+			synctest.Wait()
+			req.take()
+			if !req.closed {
+				req.in <- f
+			}
+		}
+		synctest.Wait()
+		req.closeIn()
+	}
+	synctest.Wait()
 }
 
 // advResponder: honest requester a wants to reach the adversary's account; the adversary answers with its own key.
